@@ -16,7 +16,7 @@ theorem addSpec_nodup : ∀ (order : List (Nat × Nat)) (A B : List HTree) (n : 
     (∀ x ∈ A, (x.value.category == Category.namespace) = true) →
     (∀ y, B.head? = some y → (y.value.category == Category.namespace) = false) →
     ((A.filterMap (fun k => fcNsPair k.value)).map Prod.fst).Nodup →
-    ((declsOfKids (addSpec (A ++ B) n order).1).map Prod.fst).Nodup
+    ((fcDeclsOfKids (addSpec (A ++ B) n order).1).map Prod.fst).Nodup
   | [], A, B, n, hA, hB, h => by
     simp only [addSpec]
     rw [declsOfKids_split A B hA hB]
@@ -61,10 +61,10 @@ theorem cloneWithPrefixes_shape (f : Forest) (inv : f.Inv)
       (∀ x ∈ New, IsNsLeaf x) ∧
       erase (.node c (.element name) (A ++ B)) =
         expectedClone f.consolidation (erase (.node hs (.element name) Ks)) ∧
-      (∀ b ∈ declsOfKids (A ++ New ++ B), b ∈ A.filterMap (fun k => fcNsPair k.value) ∨
+      (∀ b ∈ fcDeclsOfKids (A ++ New ++ B), b ∈ A.filterMap (fun k => fcNsPair k.value) ∨
         (b ∈ order ∧ ∀ x ∈ A.filterMap (fun k => fcNsPair k.value), x.1 ≠ b.1)) ∧
       (((A.filterMap (fun k => fcNsPair k.value)).map Prod.fst).Nodup →
-        ((declsOfKids (A ++ New ++ B)).map Prod.fst).Nodup) := by
+        ((fcDeclsOfKids (A ++ New ++ B)).map Prod.fst).Nodup) := by
   obtain ⟨hget, r, hr, hp⟩ := Forest.get?_of_pathTo hpath
   obtain ⟨C, f1, h1, h2, h3, h4, h5, h6, h7, h8, h9, h10⟩ :=
     cloneNode_full f inv node _ hget
@@ -93,7 +93,7 @@ theorem cloneWithPrefixes_shape (f : Forest) (inv : f.Inv)
   have hg2 : f2.get? c = some (.node c (.element name) (addSpec Kc f1.next order).1) := cl2.get?_c
   have hp2 := pathTo_top f2 f.roots c (.element name) _ cl2.roots hcR
   have hr2 := cl2.roots
-  simp only [plug] at hr2
+  simp only [fcPlug] at hr2
   have hA : ∀ x ∈ Kc.takeWhile (fun c => c.value.category == .namespace),
       (x.value.category == Category.namespace) = true := fun x hx => mem_takeWhile_imp _ Kc x hx
   have hB : ∀ y, (Kc.dropWhile (fun c => c.value.category == .namespace)).head? = some y →
